@@ -11,7 +11,7 @@ GEN_RULE = ("events are real calls recorded by the driver (directed boundary cla
 def P(level, rule, qsteps, tsteps, qmodels, tmodels, count_all=False, **kw):
     d = dict(level=level, rule=rule, count_all=count_all,
              quick=dict(steps=qsteps, shards=10, model_workers=6, models=qmodels),
-             thorough=dict(steps=tsteps, shards=14, model_workers=2, models=tmodels))
+             thorough=dict(steps=tsteps, shards=12, model_workers=4, models=tmodels, model_timeout=3000))
     d.update(kw)
     return d
 
@@ -25,24 +25,24 @@ def O(pid):
 
 
 PROPS = {
-    "C01": P("model_checking", ARITH_RULE, 1200, 40000, *A("C01")),
-    "C02": P("model_checking", ARITH_RULE, 1200, 40000, *A("C02")),
-    "C03": P("model_checking", ARITH_RULE, 700, 20000, *A("C03")),
+    "C01": P("model_checking", ARITH_RULE, 1200, 15000, *A("C01")),
+    "C02": P("model_checking", ARITH_RULE, 1200, 15000, *A("C02")),
+    "C03": P("model_checking", ARITH_RULE, 700, 8000, *A("C03")),
     "C04": P("model_checking", GEN_RULE, 4000, 150000, *O("C04"), count_all=True),
     "C05": P("model_checking", GEN_RULE, 6000, 150000, [("MC_Text.tla", "MC_Text_syn_quick.cfg")], [("MC_Text.tla", "MC_Text_syn_thorough.cfg")], count_all=True),
     "C06": P("model_checking", GEN_RULE, 3000, 80000, [("MC_Text.tla", "MC_Text_str_quick.cfg")], [("MC_Text.tla", "MC_Text_str_thorough.cfg")], count_all=True),
     "C07": P("model_checking", GEN_RULE, 5000, 150000, [("MC_Fmt.tla", "MC_Fmt_quick.cfg")], [("MC_Fmt.tla", "MC_Fmt_thorough.cfg")], count_all=True),
     "C08": P("model_checking", GEN_RULE, 2500, 80000, *O("C08")),
-    "C09": P("model_checking", GEN_RULE, 700, 25000, [("MC_Convert.tla", "MC_Convert_quick.cfg")], [("MC_Convert.tla", "MC_Convert_thorough.cfg")], count_all=True),
+    "C09": P("model_checking", GEN_RULE, 700, 6000, [("MC_Convert.tla", "MC_Convert_quick.cfg")], [("MC_Convert.tla", "MC_Convert_thorough.cfg")], count_all=True),
     "C10": P("model_checking", GEN_RULE, 3000, 80000, [("MC_Convert.tla", "MC_Convert_quick.cfg")], [("MC_Convert.tla", "MC_Convert_thorough.cfg")], count_all=True),
     "C11": P("model_checking", GEN_RULE, 1500, 50000, *O("C11")),
     "C12": P("model_checking", GEN_RULE, 3000, 100000, [("MC_Bid.tla", "MC_Bid_quick.cfg")], [("MC_Bid.tla", "MC_Bid_thorough.cfg")], count_all=True),
     "C13": P("model_checking", GEN_RULE, 3000, 80000, [("MC_Codec.tla", "MC_Codec_C13_quick.cfg")], [("MC_Codec.tla", "MC_Codec_C13_thorough.cfg")], count_all=True),
     "C14": P("model_checking", GEN_RULE, 4000, 100000, [("MC_Codec.tla", "MC_Codec_C14_quick.cfg")], [("MC_Codec.tla", "MC_Codec_C14_thorough.cfg")], count_all=True),
     "C15": P("model_checking", GEN_RULE, 3000, 100000, [("MC_Elem.tla", "MC_Elem_C15_quick.cfg")], [("MC_Elem.tla", "MC_Elem_C15_thorough.cfg")], count_all=True),
-    "C16": P("exploration", GEN_RULE, 500, 12000, [("MC_Encl.tla", "MC_Encl_quick.cfg")], [("MC_Encl.tla", "MC_Encl_thorough.cfg")], count_all=True),
-    "C17": P("exploration", GEN_RULE, 2500, 80000, [("MC_Elem.tla", "MC_Elem_C17_quick.cfg")], [("MC_Elem.tla", "MC_Elem_C17_thorough.cfg")], count_all=True),
-    "C18": P("exploration", GEN_RULE, 500, 12000, [("MC_Elem.tla", "MC_Elem_C15_quick.cfg")], [("MC_Elem.tla", "MC_Elem_C15_thorough.cfg")], count_all=True),
+    "C16": P("exploration", GEN_RULE, 500, 5000, [("MC_Encl.tla", "MC_Encl_quick.cfg")], [("MC_Encl.tla", "MC_Encl_thorough.cfg")], count_all=True),
+    "C17": P("exploration", GEN_RULE, 2500, 30000, [("MC_Elem.tla", "MC_Elem_C17_quick.cfg")], [("MC_Elem.tla", "MC_Elem_C17_thorough.cfg")], count_all=True),
+    "C18": P("exploration", GEN_RULE, 500, 5000, [("MC_Elem.tla", "MC_Elem_C15_quick.cfg")], [("MC_Elem.tla", "MC_Elem_C15_thorough.cfg")], count_all=True),
     "C19": P("model_checking", GEN_RULE, 2000, 60000, *O("C19"), count_all=True),
     "C20": P("exploration", GEN_RULE, 2000, 60000, [("MC_Conc.tla", "MC_Conc_safe.cfg")], [("MC_Conc.tla", "MC_Conc_safe.cfg"), ("MC_Conc.tla", "MC_Conc_safe3.cfg")], count_all=True, race=True),
 }
@@ -54,3 +54,8 @@ for _t in ("quick", "thorough"):
 for _p, _q, _t in [("C01", 40, 1500), ("C02", 40, 1500), ("C04", 25, 800), ("C08", 25, 800), ("C12", 25, 800), ("C19", 25, 800)]:
     PROPS[_p]["quick"]["calc"] = _q
     PROPS[_p]["thorough"]["calc"] = _t
+
+# the foundations of every oracle: BigNat against native integers, the three rounding formulations against each other
+PROPS["C02"]["quick"]["models"] = PROPS["C02"]["quick"]["models"] + [("MC_Dec.tla", "MC_Dec_quick.cfg")]
+PROPS["C01"]["thorough"]["models"] = PROPS["C01"]["thorough"]["models"] + [("MC_Dec.tla", "MC_Dec.cfg"), ("MC_BigNat.tla", "MC_BigNat.cfg")]
+PROPS["C02"]["thorough"]["models"] = PROPS["C02"]["thorough"]["models"] + [("MC_Dec.tla", "MC_Dec.cfg")]
